@@ -27,7 +27,8 @@ def _child_verify(i):
     import z3
     kinds._fresh_counter[0] = 0
     seed = int(os.environ.get("VERIF_SEED", "0") or 0)
-    z3.set_param("smt.random_seed", seed)
+    # the solver seed is fixed: proof outcomes must not depend on VERIF_SEED (which only drives the bounded sampling)
+    z3.set_param("smt.random_seed", 0)
     c = _CTX["contracts"][i]
     idx, schema = _CTX["index"], _CTX["schema"]
     t0 = time.time()
@@ -199,7 +200,7 @@ def run_e1(pid, modules, jobs=None):
     import contracts.schema as schema
     all_contracts = load_contracts(modules)
     tier = os.environ.get("VERIF_TIER_EFFECTIVE", "quick")
-    contracts = [c for c in all_contracts if pid in c.props and (c.tier == "quick" or tier == "thorough")]
+    contracts = [c for c in all_contracts if pid in c.props and (c.tier == "quick" or (tier == "thorough" and c.tier == "thorough"))]
     idx = RepoIndex(repo_path())
     idx.load_all()
     _CTX.update(contracts=contracts, index=idx, schema=schema)
